@@ -43,6 +43,7 @@ type vConn struct {
 	brokenOnce  *vCtx    // writes fail from the moment this context is done
 	stalledOnce *vCtx    // writes block (until their deadline, if any) from the moment this context is done
 	closeCh     chan struct{}
+	closeErr    bool // Close closes and reports an error
 	closeOnce   sync.Once
 	// paced delivery (a streaming server): from script offset paceFrom on, one packet of paceEvery bytes every pace
 	pace         time.Duration
@@ -195,6 +196,10 @@ func (c *vConn) Close() error {
 	if c.closeCh != nil {
 		c.closeOnce.Do(func() { close(c.closeCh) }) // wakes a write that is blocked on a peer that stopped reading
 	}
+	if c.closeErr {
+		// closed all the same; a tls.Conn reports this when it cannot send its close_notify
+		return vConnErr{"close: broken pipe"}
+	}
 	return nil
 }
 
@@ -309,10 +314,11 @@ func vNewClient(conn net.Conn, version int, compression proto.Compression, metho
 // VerifServer is a scripted ClickHouse endpoint for harnesses outside this package (chpool):
 // every dial yields a fresh simulated connection that answers the hello and then Pongs.
 type VerifServer struct {
-	mu     sync.Mutex // dials may come from several goroutines (C12)
-	conns  []*vConn
-	Safe   bool // hand out connections that are themselves safe for concurrent use (C12)
-	rconns []*vRConn
+	mu       sync.Mutex // dials may come from several goroutines (C12)
+	conns    []*vConn
+	CloseErr bool // connections report an error from Close (and are closed all the same)
+	Safe     bool // hand out connections that are themselves safe for concurrent use (C12)
+	rconns   []*vRConn
 }
 
 func VerifNewServer() *VerifServer { return &VerifServer{} }
@@ -339,6 +345,7 @@ func (s *VerifServer) DialContext(ctx context.Context, network, address string) 
 	}
 	c := vNewConn(script.b)
 	c.maxIdle = 1
+	c.closeErr = s.CloseErr
 	s.mu.Lock()
 	s.conns = append(s.conns, c)
 	s.mu.Unlock()
